@@ -1,4 +1,5 @@
 import CelModel.Eval
+import CelModel.Macros
 /-!
 # Line protocol: s-expressions, decoding of cases, printing of answers
 
@@ -271,6 +272,14 @@ def answer (kind : String) (payload : List Sx) : String :=
   | "eval", [c, e] =>
     let (o, st) := execute (decCtx c) (decExpr e)
     "(res " ++ encOutcome encValue o ++ " " ++ encLog st.log ++ ")"
+  | "macro", (.atom f :: tgt :: args) =>
+    let target : Option Expr := match tgt with
+      | .atom "none" => none
+      | t => some (decExpr t)
+    (match Macros.expand (atomName f) target (args.map decExpr) with
+     | .notMacro => "(not-macro)"
+     | .error => "(macro-error)"
+     | .ok e => "(expanded " ++ encExpr e ++ ")")
   | _, _ => "(bad-case)"
 
 end Wire
